@@ -124,6 +124,11 @@ def gen_agent_cfg(rng: random.Random, algo: Optional[str] = None, algos: Optiona
 
 def net_config(cfg: Dict[str, Any]) -> Optional[Dict[str, Any]]:
     """Tight bounds so that limits and fall-backs are hit within a dozen mutation steps."""
+    if cfg.get("head_out_act"):
+        # a head with an output activation (legal for every network; for the bandits it puts an activation derivative into the gradient features)
+        nc = net_config({k: v for k, v in cfg.items() if k != "head_out_act"}) or {"latent_dim": 16, "head_config": {"hidden_size": [16]}}
+        nc["head_config"] = dict(nc["head_config"], output_activation=cfg["head_out_act"])
+        return nc
     if not cfg.get("tight"):
         return None
     kind = cfg["obs"]
